@@ -78,7 +78,7 @@ def state_argument(m):
         out = []
         for d in decl:
             if "range" in d:
-                out.append(d["range"])
+                out.append(d["range"] if d.get("lims") is None else (d["range"], (d["lims"][0], d["lims"][1])))
             else:
                 lims = d.get("lims")
                 out.append((d["name"], (0, None) if lims is None else (lims[0], lims[1])))
@@ -86,7 +86,7 @@ def state_argument(m):
     out = []
     for d in decl:
         if "range" in d:
-            out.append(d["range"])
+            out.append(d["range"] if d.get("lims") is None else (d["range"], (d["lims"][0], d["lims"][1])))
         elif d.get("lims") is not None:
             out.append((d["name"], (d["lims"][0], d["lims"][1])))
         else:
